@@ -2448,6 +2448,12 @@ func (db *DatabaseCollectionWithUser) prepareSyncFn(doc *Document, newDoc *Docum
 		return
 	}
 
+	if mutableBody == nil {
+		// a body of JSON null decodes into a nil map without error
+		err = base.ErrEmptyDocument
+		return
+	}
+
 	err = validateNewBody(mutableBody)
 	if err != nil {
 		return
